@@ -292,6 +292,8 @@ func (w *Writer) sendResult(data interface{}) error {
 		if err != nil {
 			return fmt.Errorf("io.WriteString failed: %w", err)
 		}
+
+		return nil
 	}
 
 	err := binary.Write(w.Writer, binary.BigEndian, data)
